@@ -235,4 +235,290 @@ def runActs (fixed : Bool) : St → List Act → St
     | some s' => runActs fixed s' rest
     | none => runActs fixed s rest
 
+/-!
+## Finer step granularity (extension mqtt): `FSt`, `FAct`, `fstep`
+
+The steps above are as coarse as the *broker* lock scopes. The Go code, however, releases every
+lock between several effects that one coarse step lumps together, and steps that do not take the
+broker lock can run *inside* a broker-locked section of another goroutine. `fstep` (repaired
+code only) has at most ONE access to a variable shared with a non-broker-lock step per atomic
+step; the broker lock is explicit (`lock : Lk` = who holds it and where in its section it is;
+steps that take `b.Lock()` are enabled only when it is `free`).
+
+Lock scopes in the source (regenerated as `Gen/FactsC16Locks`, theorem `lock_scopes`):
+
+* `handleConn` broker.go:351-370 `b.Lock() … b.Unlock()`: takeover mark `go oldClient.close()` +
+  `b.clients[cid] = client` = `lockConn`; `setSession`: `sessMgr.get` (sync.Map Load, store.get,
+  Store) + reuse branch / no previous session = `lkGet`; discard branch: `prevSess.allSubscribes()`
+  (Session lock) = `lkSnap`; `topicMgr.unsubscribe` (TopicManager lock), `prevSess.close()`,
+  `newSessionFromConn`, `b.Unlock()` = `lkUnsub`. After the lock (no lock held in between):
+  `updateEGName` (Session lock; `store()` encodes under it and hands the value to
+  `go func(){storeCh<-}`) = `storeSess` + a later `doStore i` (any order: the senders are
+  unordered goroutines); `allSubscribes()` = `resubSnap`; `topicMgr.subscribe(topics…)` = `resubIns`.
+* `processSubscribe` client.go:360/365: `topicMgr.subscribe` (TopicManager lock) = `subTM`, then
+  `session.subscribe` (Session lock + `store()`) = `subSess` (+ `doStore`); no common lock.
+  `processUnsubscribe` client.go:381/385 likewise = `unsubTM`, `unsubSess`.
+* `closeAndDelSession` client.go:297-307 `c.broker.Lock() … Unlock()`: ownership check, `delLocal`,
+  `delDB` = `tdHead` (from readLoop's defer) / `wErrHead` (from writeLoop); `allSubscribes()` =
+  `tdSnap`; `topicMgr.unsubscribe` + `Unlock` = `tdUnsub`; then `c.close()` (Client lock) = `close`
+  / `wClose`.
+* `removeClient` broker.go:468-474, `deleteSession` broker.go:234-242: one broker-locked step each.
+
+A SUBSCRIBE/UNSUBSCRIBE packet *starts* (`subTM`/`unsubTM`) only on the registered live
+connection (`isCur`, the coarse model's assumption that a superseded connection sends nothing
+more) but, once started, *finishes* (`subSess`/`unsubSess`) unconditionally — `readLoop` looks at
+`c.done` only between packets. `noticeEnd` needs the packet in flight to be finished (same
+goroutine). The per-connection record keeps `pc = new` during the locked section of `handleConn`
+and `pc = stored` between `resubSnap` and `resubIns`.
+-/
+
+/-- holder of `Broker.Lock` and its position inside the locked section -/
+inductive Lk
+  | free
+  | connGet (k : Nat) (clean : Bool)                              -- handleConn: registered, before `sessMgr.get`
+  | connSnap (k : Nat) (clean : Bool) (r : Nat)                   -- setSession discards `r`: before `prevSess.allSubscribes()`
+  | connUnsub (k : Nat) (clean : Bool) (r : Nat) (ts : List Nat)  -- before `topicMgr.unsubscribe(ts)`
+  | tdSnap (k : Nat) (w : Bool)                                   -- closeAndDelSession (w: from writeLoop): before `allSubscribes()`
+  | tdUnsub (k : Nat) (w : Bool) (ts : List Nat)                  -- before `topicMgr.unsubscribe(ts)`
+deriving DecidableEq, Repr
+
+/-- the connection that is inside the locked section of `handleConn` -/
+def Lk.connHolder : Lk → Option Nat
+  | .connGet k _ | .connSnap k _ _ | .connUnsub k _ _ _ => some k
+  | _ => none
+
+/-- the connection whose *writeLoop* is inside the locked section of `closeAndDelSession` -/
+def Lk.wHolder : Lk → Option Nat
+  | .tdSnap k true | .tdUnsub k true _ => some k
+  | _ => none
+
+structure FConn where
+  pend : Option (Bool × Nat)   -- packet in flight: SUBSCRIBE (true) / UNSUBSCRIBE (false) of `f`, TopicManager part done
+  snap : Option (List Nat)     -- handleConn: `allSubscribes()` taken, `topicMgr.subscribe` not yet run
+  wl : Bool                    -- writeLoop is inside `closeAndDelSession` (its `c.close()` not yet run)
+deriving Repr, DecidableEq
+
+structure FSt where
+  base : St
+  fc : Nat → FConn
+  lock : Lk
+  storeQ : List (List Nat × Bool)   -- values handed to `go func(){ storeCh <- ss }()`, not yet `store.put`
+
+def fconn0 : FConn := ⟨none, none, false⟩
+def finit : FSt := ⟨init, fun _ => fconn0, Lk.free, []⟩
+
+inductive FAct
+  | lockConn (k : Nat) (clean : Bool)
+  | lkGet (k : Nat)
+  | lkSnap (k : Nat)
+  | lkUnsub (k : Nat)
+  | refuse (k : Nat)
+  | connackFail (k : Nat)
+  | storeSess (k : Nat)
+  | doStore (i : Nat)
+  | resubSnap (k : Nat)
+  | resubIns (k : Nat)
+  | subTM (k : Nat) (f : Nat)
+  | subSess (k : Nat)
+  | unsubTM (k : Nat) (f : Nat)
+  | unsubSess (k : Nat)
+  | noticeEnd (k : Nat)
+  | tdHead (k : Nat)
+  | tdSnap (k : Nat)
+  | tdUnsub (k : Nat)
+  | close (k : Nat)
+  | remove (k : Nat)
+  | wErrHead (k : Nat)
+  | wClose (k : Nat)
+  | asyncClose (k : Nat)
+  | adminDelete
+  | watchFires
+deriving DecidableEq, Repr
+
+/-- `delLocal` and (clean session) `delDB` of `closeAndDelSession`: `teardownBody` without the
+final `topicMgr.unsubscribe` -/
+def teardownHead (s : St) (k : Nat) : St :=
+  let own := s.sess (s.conn k).sess
+  let s1 : St := match s.sessMap with
+    | some r => { closeSess s r with sessMap := none }
+    | none => s
+  if own.clean then { s1 with db := none, watch := s1.watch + 1 } else s1
+
+def setFc (s : FSt) (k : Nat) (c : FConn) : FSt := { s with fc := upd s.fc k c }
+
+/-- the value `Session.store()` encodes: topics and clean flag of session `r` -/
+def encodeSess (s : St) (r : Nat) : List Nat × Bool := ((s.sess r).topics, (s.sess r).clean)
+
+/-- `session.subscribe` / `session.unsubscribe` on session object `r` (topics only) -/
+def sessTopics (s : St) (r : Nat) (ts : List Nat) : St :=
+  { s with sess := upd s.sess r { s.sess r with topics := ts } }
+
+/-- One fine atomic step of the repaired code; `none` = not enabled. -/
+def fstep (s : FSt) : FAct → Option FSt
+  | .lockConn k clean =>
+    if (s.base.conn k).pc = Pc.new ∧ s.lock = Lk.free then
+      some { s with base := { takeoverMark s.base with client := some k }, lock := Lk.connGet k clean }
+    else none
+  | .lkGet k =>
+    match s.lock with
+    | .connGet k' clean =>
+      if k' = k then
+        let g := getSess s.base
+        match g.2 with
+        | some r =>
+          if !clean && !(g.1.sess r).clean then
+            some { s with base := setConn g.1 k ⟨Pc.registered, clean, r, (g.1.conn k).disc, (g.1.conn k).closeReq⟩,
+                          lock := Lk.free }
+          else some { s with base := g.1, lock := Lk.connSnap k clean r }
+        | none => some { s with base := newSession g.1 k clean, lock := Lk.free }
+      else none
+    | _ => none
+  | .lkSnap k =>
+    match s.lock with
+    | .connSnap k' clean r =>
+      if k' = k then some { s with lock := Lk.connUnsub k clean r (s.base.sess r).topics } else none
+    | _ => none
+  | .lkUnsub k =>
+    match s.lock with
+    | .connUnsub k' clean r ts =>
+      if k' = k then
+        some { s with base := newSession (closeSess { s.base with topicMgr := delAll s.base.topicMgr ts } r) k clean,
+                      lock := Lk.free }
+      else none
+    | _ => none
+  | .refuse k =>
+    if (s.base.conn k).pc = Pc.new ∧ s.lock.connHolder ≠ some k then some { s with base := setPc s.base k Pc.done }
+    else none
+  | .connackFail k =>
+    if (s.base.conn k).pc = Pc.registered then some { s with base := setPc s.base k Pc.done } else none
+  | .storeSess k =>
+    if (s.base.conn k).pc = Pc.registered then
+      some { s with base := setPc s.base k Pc.stored, storeQ := s.storeQ ++ [encodeSess s.base (s.base.conn k).sess] }
+    else none
+  | .doStore i =>
+    match s.storeQ[i]? with
+    | some v => some { s with base := { s.base with db := some v }, storeQ := s.storeQ.eraseIdx i }
+    | none => none
+  | .resubSnap k =>
+    if (s.base.conn k).pc = Pc.stored ∧ (s.fc k).snap = none then
+      some (setFc s k { s.fc k with snap := some (s.base.sess (s.base.conn k).sess).topics })
+    else none
+  | .resubIns k =>
+    if (s.base.conn k).pc = Pc.stored then
+      match (s.fc k).snap with
+      | some ts =>
+        some { setFc s k { s.fc k with snap := none } with
+               base := setPc { s.base with topicMgr := addAll s.base.topicMgr ts } k Pc.running }
+      | none => none
+    else none
+  | .subTM k f =>
+    if isCur s.base k = true ∧ (s.fc k).pend = none then
+      some { setFc s k { s.fc k with pend := some (true, f) } with
+             base := { s.base with topicMgr := addT s.base.topicMgr f } }
+    else none
+  | .subSess k =>
+    match (s.fc k).pend with
+    | some (true, f) =>
+      let r := (s.base.conn k).sess
+      let b1 := sessTopics s.base r (addT (s.base.sess r).topics f)
+      some { setFc s k { s.fc k with pend := none } with base := b1, storeQ := s.storeQ ++ [encodeSess b1 r] }
+    | _ => none
+  | .unsubTM k f =>
+    if isCur s.base k = true ∧ (s.fc k).pend = none then
+      some { setFc s k { s.fc k with pend := some (false, f) } with
+             base := { s.base with topicMgr := delT s.base.topicMgr f } }
+    else none
+  | .unsubSess k =>
+    match (s.fc k).pend with
+    | some (false, f) =>
+      let r := (s.base.conn k).sess
+      let b1 := sessTopics s.base r (delT (s.base.sess r).topics f)
+      some { setFc s k { s.fc k with pend := none } with base := b1, storeQ := s.storeQ ++ [encodeSess b1 r] }
+    | _ => none
+  | .noticeEnd k =>
+    if (s.base.conn k).pc = Pc.running ∧ (s.fc k).pend = none then some { s with base := setPc s.base k Pc.ended }
+    else none
+  | .tdHead k =>
+    if (s.base.conn k).pc = Pc.ended ∧ s.lock = Lk.free then
+      if superseded s.base k then some { s with base := setPc s.base k Pc.cleaned }
+      else some { s with base := teardownHead s.base k, lock := Lk.tdSnap k false }
+    else none
+  | .tdSnap k =>
+    match s.lock with
+    | .tdSnap k' w =>
+      if k' = k then some { s with lock := Lk.tdUnsub k w (s.base.sess (s.base.conn k).sess).topics } else none
+    | _ => none
+  | .tdUnsub k =>
+    match s.lock with
+    | .tdUnsub k' w ts =>
+      if k' = k then
+        let b1 : St := { s.base with topicMgr := delAll s.base.topicMgr ts }
+        some { s with base := if w then b1 else setPc b1 k Pc.cleaned, lock := Lk.free }
+      else none
+    | _ => none
+  | .close k =>
+    if (s.base.conn k).pc = Pc.cleaned then some { s with base := setPc (markDisc s.base k) k Pc.closed } else none
+  | .remove k =>
+    if (s.base.conn k).pc = Pc.closed ∧ s.lock = Lk.free then
+      let s1 : St := match s.base.client with
+        | some o => if (s.base.conn o).disc then { s.base with client := none } else s.base
+        | none => s.base
+      some { s with base := setPc s1 k Pc.done }
+    else none
+  | .wErrHead k =>
+    if (s.base.conn k).pc = Pc.running ∧ (s.fc k).wl = false ∧ s.lock = Lk.free then
+      if superseded s.base k then some (setFc s k { s.fc k with wl := true })
+      else some { setFc s k { s.fc k with wl := true } with
+                  base := teardownHead s.base k, lock := Lk.tdSnap k true }
+    else none
+  | .wClose k =>
+    if (s.fc k).wl = true ∧ s.lock.wHolder ≠ some k then
+      some { setFc s k { s.fc k with wl := false } with base := markDisc s.base k }
+    else none
+  | .asyncClose k => if (s.base.conn k).closeReq then some { s with base := markDisc s.base k } else none
+  | .adminDelete => some { s with base := { s.base with db := none, watch := s.base.watch + 1 } }
+  | .watchFires =>
+    if 0 < s.base.watch ∧ s.lock = Lk.free then
+      some { s with base := { deleteSession s.base with watch := s.base.watch - 1 } }
+    else none
+
+/-- Run a list of fine steps, skipping those that are not enabled. -/
+def runActsF : FSt → List FAct → FSt
+  | s, [] => s
+  | s, a :: rest =>
+    match fstep s a with
+    | some s' => runActsF s' rest
+    | none => runActsF s rest
+
+/-- all-or-nothing execution of a list of fine steps -/
+def runAllF : FSt → List FAct → Option FSt
+  | s, [] => some s
+  | s, a :: rest => (fstep s a).bind (fun s' => runAllF s' rest)
+
+/-- the fine steps one coarse step consists of, when nothing else is scheduled in between
+(`s` = the coarse state the step starts in) -/
+def expandF (s : St) : Act → List FAct
+  | .connectLocked k clean =>
+    let g := getSess { takeoverMark s with client := some k }
+    [FAct.lockConn k clean, FAct.lkGet k] ++
+      (match g.2 with
+       | some r => if !clean && !(g.1.sess r).clean then [] else [FAct.lkSnap k, FAct.lkUnsub k]
+       | none => [])
+  | .refuse k => [FAct.refuse k]
+  | .connackFail k => [FAct.connackFail k]
+  | .storeSess k => [FAct.storeSess k, FAct.doStore 0]
+  | .resubscribe k => [FAct.resubSnap k, FAct.resubIns k]
+  | .subscribe k f => [FAct.subTM k f, FAct.subSess k, FAct.doStore 0]
+  | .unsubscribe k f => [FAct.unsubTM k f, FAct.unsubSess k, FAct.doStore 0]
+  | .noticeEnd k => [FAct.noticeEnd k]
+  | .cleanup k => if superseded s k then [FAct.tdHead k] else [FAct.tdHead k, FAct.tdSnap k, FAct.tdUnsub k]
+  | .close k => [FAct.close k]
+  | .remove k => [FAct.remove k]
+  | .writeErr k =>
+    if superseded s k then [FAct.wErrHead k, FAct.wClose k]
+    else [FAct.wErrHead k, FAct.tdSnap k, FAct.tdUnsub k, FAct.wClose k]
+  | .asyncClose k => [FAct.asyncClose k]
+  | .adminDelete => [FAct.adminDelete]
+  | .watchFires => [FAct.watchFires]
+
 end EgVerif.BrokerSessions
